@@ -5,6 +5,7 @@ import RR.Proof.Sched
 import RR.Proof.Sync
 import RR.Proof.Wait
 import RR.Gen.Waits
+import RR.Proof.KpnRetire
 
 /-!
 # C05 — multithreaded runner: terminates with the schedule-independent reference result
@@ -121,5 +122,28 @@ example :
     let sched : List (Nat × List Nat) :=
       [(0, []), (1, [2]), (2, [1]), (3, [1, 1]), (1, [3]), (3, [1, 2]), (2, [3]), (3, [3, 3])]
     (sched.foldl (fun s p => Kpn.stepFn diamond p.1 p.2 s) s0).h = Kpn.eval diamond [] := by decide
+
+/-- **Retiring blocks.** Both runners stop calling a block once its `eof()` has answered true after a wait verdict.
+With the set of retired blocks added to the graph state (a retired block takes no more steps): for EVERY
+interleaving of block steps and retirements in which each retirement was *sound* — every stream the block reads
+belongs to an already retired block, the block has consumed all of it and emitted everything its history function
+gives — the state in which all blocks are retired holds the sequential reference execution on every stream. -/
+theorem c05_retire_all_is_reference (nodes : List Kpn.Node)
+    (hw : ∀ m, (hm : m < nodes.length) → ∀ i ∈ nodes[m].ins, i < Kpn.base nodes m)
+    (R : List Nat) (s : Kpn.GState)
+    (r : Kpn.RRun nodes ([], ⟨List.replicate (Kpn.base nodes nodes.length) [], []⟩) (R, s))
+    (hall : ∀ m, m < nodes.length → m ∈ R) : s.h = Kpn.eval nodes [] :=
+  Kpn.retire_all_is_reference nodes hw R s r hall
+
+/-- The soundness of the retirements is needed: a pass-through block that has consumed its three input samples
+and delivered two of them (the third still inside — `FftFilterFloat` before `fix:` 88f9b55) is in a reachable
+state that satisfies the invariant; retiring it there ends the run with `[1, 2]` where the reference has
+`[1, 2, 3]`. -/
+theorem c05_unsound_retire_loses :
+    Kpn.Run Kpn.lagNodes Kpn.lagS0 Kpn.lagS2 ∧ Kpn.Inv Kpn.lagNodes Kpn.lagS2 ∧
+    ¬ Kpn.Done Kpn.lagNodes Kpn.lagS2 1 (by decide) ∧
+    Kpn.lagS2.h.getD 1 [] = [1, 2] ∧ (Kpn.eval Kpn.lagNodes []).getD 1 [] = [1, 2, 3] :=
+  Kpn.unsound_retire_loses
+
 
 end RR.Props.C05
